@@ -338,7 +338,7 @@ func assignOne(destValue reflect.Value, taken any, to string) (reflect.Value, er
 			return destValue, fmt.Errorf("field mapping to a struct field but output is not a struct, type=%v", destValue.Type())
 		}
 
-		field := destValue.FieldByName(path)
+		field := settableFieldByName(destValue, path)
 		if !field.IsValid() {
 			return destValue, fmt.Errorf("field mapping to a struct field, but field not found. field=%v, outputType=%v", path, destValue.Type())
 		}
@@ -355,6 +355,30 @@ func assignOne(destValue reflect.Value, taken any, to string) (reflect.Value, er
 
 type mapWriteBack struct {
 	m, key, elem reflect.Value
+}
+
+// settableFieldByName is reflect.Value.FieldByName for a settable struct, allocating the nil embedded
+// pointers that a promoted field lies behind.
+func settableFieldByName(v reflect.Value, name string) reflect.Value {
+	sf, ok := v.Type().FieldByName(name)
+	if !ok {
+		return reflect.Value{}
+	}
+
+	for i, x := range sf.Index {
+		if i > 0 && v.Kind() == reflect.Ptr {
+			if v.IsNil() {
+				if !v.CanSet() {
+					return v.Elem() // invalid value
+				}
+				v.Set(reflect.New(v.Type().Elem()))
+			}
+			v = v.Elem()
+		}
+		v = v.Field(x)
+	}
+
+	return v
 }
 
 func instantiateIfNeeded(field reflect.Value) {
@@ -390,9 +414,21 @@ func newInstanceByType(typ reflect.Type) reflect.Value {
 }
 
 func checkAndExtractFromField(fromField string, input reflect.Value) (reflect.Value, error) {
-	f := input.FieldByName(fromField)
-	if !f.IsValid() {
+	sf, ok := input.Type().FieldByName(fromField)
+	if !ok {
 		return reflect.Value{}, fmt.Errorf("field mapping from a struct field, but field not found. field=%v, inputType=%v", fromField, input.Type())
+	}
+
+	// a promoted field may lie behind a nil embedded pointer, which only the request can tell
+	f := input
+	for i, x := range sf.Index {
+		if i > 0 && f.Kind() == reflect.Ptr {
+			if f.IsNil() {
+				return reflect.Value{}, &errNilInFieldMappingPath{field: fromField, typ: f.Type()}
+			}
+			f = f.Elem()
+		}
+		f = f.Field(x)
 	}
 
 	if !f.CanInterface() {
@@ -512,7 +548,7 @@ func checkAndExtractToField(toField string, output, toSet reflect.Value) (field 
 		return reflect.Value{}, fmt.Errorf("field mapping to a struct field but output is not a struct, type=%v", output.Type())
 	}
 
-	field = output.FieldByName(toField)
+	field = settableFieldByName(output, toField)
 	if !field.IsValid() {
 		return reflect.Value{}, fmt.Errorf("field mapping to a struct field, but field not found. field=%v, outputType=%v", toField, output.Type())
 	}
